@@ -587,12 +587,77 @@ fn strip_mode(in_path: &str, out_path: &str) {
     }
 }
 
+/// C17: compare what logos-cli printed with the expected stripped enum and with the output of
+/// `generate()` for the same input.
+fn clicheck_mode(in_path: &str, out_path: &str) {
+    use quote::ToTokens;
+    let text = std::fs::read_to_string(in_path).unwrap();
+    std::panic::set_hook(Box::new(|_| {}));
+    let mut f = std::fs::File::create(out_path).unwrap();
+    // derive lists are compared as lists of paths (a trailing comma is not a difference)
+    fn norm_item(item: &mut syn::Item) -> Result<(), String> {
+        use syn::punctuated::Punctuated;
+        if let syn::Item::Enum(e) = item {
+            for attr in &mut e.attrs {
+                if attr.path().is_ident("derive") {
+                    let paths = attr
+                        .parse_args_with(Punctuated::<syn::Path, syn::Token![,]>::parse_terminated)
+                        .map_err(|err| format!("derive list is not a list of paths: {err}"))?;
+                    let list: Vec<syn::Path> = paths.into_iter().collect();
+                    *attr = syn::parse_quote!(#[derive(#(#list),*)]);
+                }
+            }
+        }
+        Ok(())
+    }
+    let norm = |s: &str| -> Option<String> {
+        let mut f = syn::parse_file(s).ok()?;
+        let it = f.items.get_mut(0)?;
+        norm_item(it).ok()?;
+        Some(it.to_token_stream().to_string())
+    };
+    for l in text.lines().filter(|l| !l.trim().is_empty()) {
+        let v: Value = serde_json::from_str(l).unwrap();
+        let src = v["src"].as_str().unwrap();
+        let stdout = v["stdout"].as_str().unwrap();
+        let expect = v["expect"].as_str().unwrap();
+        let mut why = Value::Null;
+        match syn::parse_file(stdout) {
+            Err(e) => why = json!(format!("output is not valid Rust: {e}")),
+            Ok(mut file) => {
+                if file.items.is_empty() {
+                    why = json!("no items in output");
+                } else if let Err(e) = norm_item(&mut file.items[0]) {
+                    why = json!(e);
+                } else {
+                    let first = file.items[0].to_token_stream().to_string();
+                    let want = norm(expect).unwrap_or_default();
+                    if first != want {
+                        why = json!(format!("stripped enum differs: got `{first}` want `{want}`"));
+                    } else {
+                        let rest: String = file.items[1..].iter().map(|i| i.to_token_stream().to_string()).collect::<Vec<_>>().join(" ");
+                        let r = run_generate(src);
+                        let genf = syn::parse_file(&r.out_text)
+                            .map(|f| f.items.iter().map(|i| i.to_token_stream().to_string()).collect::<Vec<_>>().join(" "))
+                            .unwrap_or_else(|_| "<generate output unparsable>".into());
+                        if rest != genf {
+                            why = json!("implementation part differs from generate()");
+                        }
+                    }
+                }
+            }
+        }
+        writeln!(f, "{}", json!({"id": v["id"], "why": why})).unwrap();
+    }
+}
+
 fn main() {
     let args: Vec<String> = std::env::args().collect();
     match args.get(1).map(|s| s.as_str()) {
         Some("capture") => capture(&args[2], &args[3], args.iter().any(|a| a == "--stages")),
         Some("hash") => hash_mode(&args[2], &args[3], args[4].parse().unwrap()),
         Some("strip") => strip_mode(&args[2], &args[3]),
+        Some("clicheck") => clicheck_mode(&args[2], &args[3]),
         _ => {
             eprintln!("usage: gen capture|hash|strip ...");
             std::process::exit(2);
